@@ -79,6 +79,48 @@ CHECKS = {
         "=> sleep) for all configurations/environments of the Gallina model.",
         RUNNER_NOTE, "DESIGN.md §4 C16",
     ),
+    "C04": (
+        "Coq proof (the run's delivery is `deliver` of the pass that ended the loop; that pass is the last attempt; case analysis of its verdict) tied by in-Coq correspondence on what call() returns/raises (object identity by id registry, traceback frame checked by the driver)",
+        "Theorems C04_* (a final pass exists and is the last attempt; success => the value of that attempt; stop on an "
+        "exception-caused failure => that attempt's own exception re-raised; stop on a result-caused failure or deferral => "
+        "RetryExhaustedError with stop_reason, attempts, last_class, exactly one of last_result/last_exception and next_sleep_s "
+        "describing that attempt) for all configurations/environments of the Gallina model; tracebacks are not modelled.",
+        RUNNER_NOTE, "DESIGN.md §4 C04",
+    ),
+    "C05": (
+        "Coq proof (strategy calls of a pass as a function of its verdict; data-flow of the delay through the complete event list: Forall (carries d)) tied by in-Coq trace correspondence (projection: strategy calls with all arguments, delays seen by handler/before_sleep/sleeper/retry events, next_sleep_s)",
+        "Theorems C05_* (per-class strategy else default; at most one strategy call per failed attempt, exactly one per granted "
+        "retry; arguments = attempt, classification incl. retry_after_s, previous delay, remaining time, cause; legacy signature; "
+        "delay = min(max(0, finite(raw)), remaining); the same delay reaches handler, before_sleep, sleeper, retry/scheduled "
+        "events and the next context's prev) for all configurations/environments of the Gallina model.",
+        RUNNER_NOTE, "DESIGN.md §4 C05",
+    ),
+    "C11": (
+        "Coq proof (as C04 for the execute delivery: every RetryOutcome field as a function of the final pass and the state it leaves; attempts = number of invocations by induction over the loop) tied by in-Coq correspondence on all RetryOutcome fields / the propagating exception",
+        "Theorems C11_* (ok iff the final attempt succeeded and then value is its result; otherwise stop_reason, attempts = "
+        "#invocations, last_class, cause, exactly one of last_exception/last_result of the final processed failure, none if "
+        "aborted before any failure, next_sleep_s iff deferred; only cancellation-type exceptions and a nested "
+        "RetryExhaustedError propagate) for the Gallina model; callback errors are outside the model; the no-retry builders are "
+        "covered by policy-level correspondence only.",
+        RUNNER_NOTE, "DESIGN.md §4 C11",
+    ),
+    "C14": (
+        "Coq proof (the observability events of a run are the fan-out of a report sequence computed from the verdicts; grammar retry* terminal by induction over the loop; terminal report vs delivered stop reason) tied by in-Coq trace correspondence (projection: every on_metric/on_log call with arguments, captured timeline, delivered stop reason) incl. abort-sentinel scripts",
+        "Theorems C14_* (metric hook and log hook receive exactly the run's report sequence, hence the same; normal runs report "
+        "retry_1..retry_n with attempt = i then exactly one terminal event; the terminal report is success / aborted (stop reason "
+        "only) / named after the stop reason in the state, which is the one delivered) for the Gallina model. Timeline equality and "
+        "Policy's breaker events (attempt 0, breaker state) are NOT theorems: they are tied by the correspondence run and the "
+        "oracle only.",
+        RUNNER_NOTE, "DESIGN.md §4 C14",
+    ),
+    "C15": (
+        "Coq proof (non-interference: runs in two worlds that differ only in which hook invocations raise are equal, by induction over the loop) tied by in-Coq full-trace correspondence with fault injection at every hook invocation index, plus silent-twin comparison on the implementation",
+        "Theorems C15_* (same trace, delivery and final state incl. shared budget whatever on_metric / on_log / before_sleep "
+        "invocations raise; the emission to the other sink and the timeline does not depend on the world) for the Gallina model, in "
+        "which every hook call site goes through `guarded`; that the code guards every site is what the correspondence checks. "
+        "Breaker-event emission by Policy is covered by correspondence only.",
+        RUNNER_NOTE, "DESIGN.md §4 C15",
+    ),
 }
 
 NOT_YET = "check not built yet at this commit (work in progress; see DESIGN.md §10 build order)"
